@@ -205,6 +205,28 @@ def run_one(ck, prog):
         ck.ob("C18.4", f"new_{ctor}|field-sources-match-the-kernel-abi", not diff, fn=Q + "IoUringSubmissionQueueEntry::new_" + ctor,
               detail=f"entry fields fed from other arguments than the reviewed layout (field: (reviewed parameter indices / constant, found)): {diff}")
     ck.floor("C18.4", "SQE constructors", n, 16 if ck.config == "C" else 19)   # three constructors need alloc
+    # the flag words handed to the kernel: each named bit has the value the kernel header gives it (frozen table c18_flags.json), and no
+    # two names of one flag type share a bit (a copy-pasted shift turns a hard link into a soft one)
+    flags = _json.load(open(os.path.join(os.path.dirname(__file__), "c18_flags.json")))["values"]
+    seen = {}
+    n_flags = 0
+    for cpath, d in sorted(prog.consts.items()):
+        if not cpath.startswith(Q) or not isinstance(d.get("value"), int):
+            continue
+        short = cpath[len(Q):]
+        if "::" not in short:
+            continue
+        n_flags += 1
+        want = flags.get(short)
+        if want is None:
+            ck.ob("C18.4", f"flag|{short}|reviewed", False, detail=f"{short} = {d['value']} is not in the reviewed table sa/rules/c18_flags.json; check it against include/uapi/linux/io_uring.h and add it")
+        else:
+            ck.ob("C18.4", f"flag|{short}|kernel-value", d["value"] == want, detail=f"{short} is {d['value']}, the kernel header says {want}")
+        ty = short.split("::")[0]
+        if d["value"] != 0 and not short.endswith("::DEFAULT"):
+            other = seen.setdefault((ty, d["value"]), short)
+            ck.ob("C18.4", f"flag|{short}|distinct", other == short, detail=f"{short} and {other} are the same bit ({d['value']})")
+    ck.floor("C18.4", "io_uring flag constants", n_flags, 40)
     uf = prog.fns.get(Q + "unpack_dir_fd")
     if ck.anchor("C18.4", "unpack_dir_fd", uf):
         c2 = prog.ctx(uf)
